@@ -31,6 +31,10 @@ def generate(rnd, tier):
         cases.append(with_cc({"op": "prompt", "message": rnd.choice([None, "", "Please make a selection from the above"]), "ops": ops, "w": rnd.choice([80, 40, 20, 10, 5, 1])}))
     for _ in range(1500 if tier == "quick" else 15000):
         items = [rnd.choice([["text", gen_text(rnd)], ["sep", rnd.randint(1, 3)], gen_tree(rnd, 1)]) for _ in range(rnd.randint(0, 5))]
+        if rnd.random() < 0.25:
+            # a long text shown by the window itself and again inside a two-column list further down (the very same widget object, there at a narrower width)
+            j = rnd.randrange(len(items) + 1); items.insert(j, ["text", "word " * rnd.randint(6, 14)])
+            items.insert(rnd.randrange(j + 1, len(items) + 1), ["list", rnd.random() < 0.5, 2, None, rnd.choice([1, 3]), rnd.choice([None, ["", ") ", 1]]), [["text", "x"], ["upref", j]]])
         cases.append(with_cc({"op": "tree", "tree": ["window", rnd.choice([None, "", "Title", "a long title of the window that wraps"]), items],
                               "ops": [["render", rnd.choice([1, 3, 8, 20, 40, 80])]] * rnd.choice([1, 2, 3])}))
     # whole-screen draws through the real scheduler: long contents on low screens, drawn several times (refresh key, rejected lines, return from a pushed screen)
@@ -40,7 +44,8 @@ def generate(rnd, tier):
         for i in range(nscr):
             screens.append(dict(id=i, name="S%d" % i, title=rnd.choice([None, "T%d" % i]), text="".join("LINE-%02d\n" % k for k in range(rnd.randint(1, 40))),
                                 height=rnd.choice([4, 5, 6, 8, 12, 30]), input_required=True, no_separator=rnd.random() < 0.2, skip_check=False,
-                                scripts={"input": [{"ret": rnd.choice(["REDRAW", "r", "DISCARDED", "PROCESSED", "CLOSE"])} for _ in range(8)]}))
+                                scripts={"input": [{"ret": rnd.choice(["REDRAW", "r", "DISCARDED", "PROCESSED", "CLOSE"])} for _ in range(8)]},
+                                hidden=rnd.random() < 0.25))            # a screen that hides what the user types (password): its pages are still asked for visibly
         init = [["schedule", i, None] for i in range(nscr)]
         cases.append(_s.with_cc(dict(op="machine", mode="paging", width=rnd.choice([80, 40, 12]), screens=screens, handlers=[], init=init,
                                     stdin=[rnd.choice(["", "", "", "r", "x", "c"]) for _ in range(rnd.randint(2, 30))], quit_cb=None, quit_screen=None,
@@ -94,6 +99,10 @@ def monitor_session(case, obs):
             h = spec.get("height", 30)
             sizes = [len([l for l in p_.split("\n") if l != ""] if False else (p_.split("\n")[:-1] if p_.endswith("\n") else p_.split("\n"))) for p_ in pages]
             if len(pages) > 1 and any(sz > h - 2 for sz in sizes): return "a page of %d lines on a screen of height %d" % (max(sizes), h)
+            # the request between two pages is an ordinary, visible one (the line the user types there is not a secret of the screen)
+            for e2, c2 in obs["xlog"]:
+                if e2[0] == "hidden-read" and c2.get("out") is not None and a < c2["out"] < b and out[:c2["out"]].endswith(cont):
+                    return "the continue request between two pages of %s was asked through the hidden-input (password) path" % spec["name"]
             n_reads = sum(1 for r in reads_at if a < r < b)
             if n_reads != len(pages) - 1: return "%d lines were consumed while drawing %s, %d continue requests were shown" % (n_reads, spec["name"], len(pages) - 1)
     return None
